@@ -455,7 +455,7 @@ func ruleCommitRule(c *eng.Ctx) {
 			okPred := false
 			if pred != nil {
 				for _, r := range eng.Returns(pred) {
-					okPred = eng.RelVal(eng.LoadNamed("Offset", nil), func(v ssa.Value) bool { return eng.Call(-1, "server.min")(v) }, eng.LE)(r.Results[0])
+					okPred = eng.RelVal(eng.LoadNamed("Offset", nil), func(v ssa.Value) bool { return eng.Call(-1, "server.min")(v) }, eng.LE)(eng.RetVals(r)[0])
 				}
 			}
 			c.Check(okPred, "commit predicate", c.Pos(tv), "TakeUntil(pending.Offset <= minLatest)", "the commit queue predicate is not `pending.Offset <= minLatest`")
